@@ -62,7 +62,7 @@ def src_hash(subdirs=("src",)):
     return h.hexdigest()[:16]
 
 
-SAN_FLAGS = ["-fsanitize=address,undefined", "-fno-sanitize-recover=undefined",
+SAN_FLAGS = ["-fsanitize=address,undefined", "-fno-sanitize-recover=undefined", "-fwrapv", "-fno-sanitize=signed-integer-overflow",
              "-fno-omit-frame-pointer"]
 
 
@@ -138,7 +138,7 @@ def build_lib(defines=(), sanitize=True, opt="-O1"):
     return _lib_cache[key]
 
 
-LINK_LIBS = ["-lz", "-lbz2", "-llzma", "-lm", "-lpthread"]
+LINK_LIBS = ["-lz", "-lbz2", "-llzma", "-lpcre", "-lm", "-lpthread"]
 
 
 def build_harness(name, sources, defines=(), sanitize=True, extra=(), cxx=False, opt="-O1"):
